@@ -130,7 +130,7 @@ func c14Events(cfg c14Cfg) []string {
 		}
 	}
 	ev = append(ev, "parent-resync")
-	for _, role := range []string{"owned-p1", "owned-p2", "owned-p3", "wrong-uid", "wrong-kind", "wrong-group", "foreign-owned", "orphan-match", "orphan-nomatch", "orphan-deleting", "owned-p1-other-ns", "owned-p1-deleting"} {
+	for _, role := range []string{"owned-p1", "owned-p2", "owned-p3", "wrong-uid", "wrong-kind", "wrong-group", "foreign-owned", "orphan-match", "orphan-nomatch", "orphan-deleting", "owned-p1-other-ns", "owned-p1-deleting", "owned-p1-other-version"} {
 		for _, e := range []string{"add", "update", "delete", "tombstone", "resync"} {
 			ev = append(ev, "child:"+role+":"+e)
 		}
@@ -260,6 +260,10 @@ func c14Run(c c14Case) []mc.Finding {
 				kit.Owners(o, kit.OwnerRef(x.pk, "p1", "uid-stale", true))
 			case "wrong-kind":
 				kit.Owners(o, kit.M{"apiVersion": x.pk.APIVersion(), "kind": "Other", "name": "p1", "uid": "uid-p1", "controller": true})
+			case "owned-p1-other-version":
+				// resolution is by group, kind, name and UID: the version in the reference does not matter
+				kit.Owners(o, kit.M{"apiVersion": x.pk.Group + "/v1beta1", "kind": x.pk.Kind, "name": "p1", "uid": "uid-p1", "controller": true, "blockOwnerDeletion": true})
+				wake = "p1"
 			case "wrong-group":
 				kit.Owners(o, kit.M{"apiVersion": "other.io/v1", "kind": x.pk.Kind, "name": "p1", "uid": "uid-p1", "controller": true})
 			case "foreign-owned":
